@@ -1,6 +1,6 @@
 (* C08 property theorems *)
 From Coq Require Import ZArith List Bool.
-From EP Require Import C08.Model C08.Proofs.
+From EP Require Import C08.IterProduct C08.Model C08.Proofs.
 Import ListNotations.
 Open Scope Z_scope.
 
@@ -55,3 +55,15 @@ Example C08_nonvacuous :
   for_expr [fun _ => [1; 2; 3]; fun env => range 1 (nth 0 env 0)] (fun e => [nth 0 e 0 * 10 + nth 1 e 0]) = [11; 21; 22; 31; 32; 33] /\
   subsequence [10; 20; 30; 40] (EFin 0) (Some (EFin 2)) = [10] /\ distinct_values [1; 2; 1; 3; 2] = [1; 2; 3].
 Proof. vm_compute. repeat split; reflexivity. Qed.
+
+(* XPathContext.iter_product: the index-stack loop over lazily (re)created iterators - which is what for / some / every
+   run - stops and has yielded exactly the dependent Cartesian product, in lexicographic order: any dimension n >= 1,
+   any range functions (each may depend on the values chosen for the variables before it) *)
+Theorem C08_iter_product_loop : forall n sel, (1 <= n)%nat ->
+  exists fuel, fin (run n sel fuel init) = true /\ out (run n sel fuel init) = dp sel n [].
+Proof. exact iter_product_is_dependent_product. Qed.
+Print Assumptions C08_iter_product_loop.
+Example C08_iter_product_nonvacuous :
+  let sel := fun (k : nat) pre => match k with O => [1; 2; 3] | _ => map Z.of_nat (seq 1 (Z.to_nat (nth 0 pre 0))) end in
+  out (run 2%nat sel 40%nat init) = [[1; 1]; [2; 1]; [2; 2]; [3; 1]; [3; 2]; [3; 3]] /\ fin (run 2%nat sel 40%nat init) = true.
+Proof. vm_compute. split; reflexivity. Qed.
